@@ -827,6 +827,38 @@ fn run_loop_text(text: &str, optimised: bool, fuel: u64) -> String {
   format!("out {printed} ret {r}")
 }
 
+/// `(b X OP A B | p A)*` -> statements (operands `v<k>` / `i<n>`)
+fn straight_line(heap: &mut Heap, t: &[&str]) -> Option<Vec<Statement>> {
+  let mut body = Vec::new();
+  let mut i = 0;
+  while i < t.len() {
+    if t[i] == "b" && i + 4 < t.len() {
+      let n = expr_of(heap, t[i + 1])?;
+      let o = op_of(t[i + 2])?;
+      let a = expr_of(heap, t[i + 3])?;
+      let b = expr_of(heap, t[i + 4])?;
+      let n = n.as_variable()?.name;
+      body.push(Statement::Binary(Binary { name: n, operator: o, e1: a, e2: b }));
+      i += 5;
+    } else if t[i] == "p" && i + 1 < t.len() {
+      let a = expr_of(heap, t[i + 1])?;
+      body.push(Statement::Call {
+        callee: Callee::FunctionName(FunctionNameExpression {
+          name: FunctionName { type_name: TypeNameId::EMPTY, fn_name: name(heap, "print") },
+          type_: Type::new_fn_unwrapped(vec![INT_32_TYPE], INT_32_TYPE),
+        }),
+        arguments: vec![a],
+        return_type: INT_32_TYPE,
+        return_collector: None,
+      });
+      i += 2;
+    } else {
+      return None;
+    }
+  }
+  Some(body)
+}
+
 fn kernel_line(t: &[&str]) -> String {
   let int = |s: &str| s.parse::<i32>();
   match t[0] {
@@ -905,6 +937,69 @@ fn kernel_line(t: &[&str]) -> String {
         }
         _ => "bad-line".to_string(),
       }
+    }
+    "dce" if t.len() >= 2 => {
+      let mut heap = Heap::new();
+      let body = match straight_line(&mut heap, &t[2..]) {
+        Some(b) => b,
+        None => return "bad-line".to_string(),
+      };
+      let ret = match expr_of(&mut heap, t[1]) {
+        Some(r) => r,
+        None => return "bad-line".to_string(),
+      };
+      let mut f = Function {
+        name: FunctionName { type_name: TypeNameId::EMPTY, fn_name: name(&mut heap, "f0") },
+        parameters: vec![name(&mut heap, "v00"), name(&mut heap, "v01")],
+        type_: Type::new_fn_unwrapped(vec![INT_32_TYPE; 2], INT_32_TYPE),
+        body,
+        return_value: ret,
+      };
+      let counter = heap.create_temp_counter();
+      verif_hooks::run_pass("dce", &mut f, &counter, &config(31));
+      let kept: Vec<String> =
+        f.body.iter().filter_map(|s| s.as_binary().map(|b| b.name.as_str(&heap).to_string())).collect();
+      format!("kept {}", if kept.is_empty() { "-".to_string() } else { kept.join(",") })
+    }
+    "licm" => {
+      // the block is the body of `while (v00 = 0) { …; v99 = v00 + 1 }` (v01 is a parameter)
+      let mut heap = Heap::new();
+      let mut body = match straight_line(&mut heap, &t[1..]) {
+        Some(b) => b,
+        None => return "bad-line".to_string(),
+      };
+      let (v0, v99) = (name(&mut heap, "v00"), name(&mut heap, "v99"));
+      body.push(Statement::Binary(Binary {
+        name: v99,
+        operator: B::PLUS,
+        e1: Expression::var_name(v0, INT_32_TYPE),
+        e2: Expression::i32(1),
+      }));
+      let mut f = Function {
+        name: FunctionName { type_name: TypeNameId::EMPTY, fn_name: name(&mut heap, "f0") },
+        parameters: vec![name(&mut heap, "v01")],
+        type_: Type::new_fn_unwrapped(vec![INT_32_TYPE; 1], INT_32_TYPE),
+        body: vec![Statement::While {
+          loop_variables: vec![GenenalLoopVariable {
+            name: v0,
+            type_: INT_32_TYPE,
+            initial_value: Expression::i32(0),
+            loop_value: Expression::var_name(v99, INT_32_TYPE),
+          }],
+          statements: body,
+          break_collector: None,
+        }],
+        return_value: Expression::i32(0),
+      };
+      let counter = heap.create_temp_counter();
+      verif_hooks::run_pass("loop", &mut f, &counter, &config(31));
+      let hoisted: Vec<String> = f
+        .body
+        .iter()
+        .take_while(|s| s.as_while().is_none())
+        .filter_map(|s| s.as_binary().map(|b| b.name.as_str(&heap).to_string()))
+        .collect();
+      format!("hoisted {}", if hoisted.is_empty() { "-".to_string() } else { hoisted.join(",") })
     }
     "srloop" => sr_line(t, true),
     "srorig" => sr_line(t, false),
